@@ -1,98 +1,266 @@
-import AiutiVerif.Split.Abs
-/-! Run-level invariant of the `split` model (helper for `Props.lean`). -/
+import AiutiVerif.Split.Lemmas
 namespace AiutiVerif.Split
 variable {α σ : Type}
 
+theorem max_bump_hit (i : Bool → Nat) (side : Bool)
+    (h : i side < max (i true) (i false)) :
+    max (bump i side true) (bump i side false) = max (i true) (i false) := by
+  cases side <;> simp [bump] at * <;> omega
+
+theorem max_bump_miss (i : Bool → Nat) (side : Bool)
+    (h : ¬ i side < max (i true) (i false)) :
+    max (bump i side true) (bump i side false) = max (i true) (i false) + 1 ∧
+    i side = max (i true) (i false) := by
+  cases side <;> simp [bump] at * <;> omega
+
+theorem pairs_length_le_src (cfg : Cfg α σ) : (pairs cfg).length ≤ cfg.src.length := by
+  rw [pairs_length]; omega
+
+/-- `next()` on a branch of the tee whose generator has not finished, in canonical form. -/
+theorem teeNext_canon (cfg : Cfg α σ) (side : Bool) (n e : Nat) (cu : Bool → Nat) (fn : Bool → Bool)
+    (wf : WF cfg n e cu fn) (hf : fn side = false) :
+    (∃ p n', (pairs cfg)[cu side]? = some p ∧
+        teeNext cfg side (canon cfg n e cu fn) = (some p, canon cfg n' e (bump cu side) fn) ∧
+        WF cfg n' e (bump cu side) fn) ∨
+    (∃ e', (pairs cfg)[cu side]? = none ∧ cu side = (pairs cfg).length ∧
+        teeNext cfg side (canon cfg n e cu fn) = (none, canon cfg n e' cu fn) ∧
+        WF cfg n e' cu fn ∧ e ≤ e' ∧ e' ≤ e + 1) := by
+  have hcu : cu side ≤ n := by
+    have := wf.nMax
+    cases side <;> omega
+  by_cases hlt : cu side < n
+  · -- the pair is in the shared buffer already
+    have hlen : cu side < (pairs cfg).length := Nat.lt_of_lt_of_le hlt wf.nLe
+    have hp : (pairs cfg)[cu side]? = some (pairs cfg)[cu side] := List.getElem?_eq_getElem hlen
+    left
+    refine ⟨(pairs cfg)[cu side], n, hp, ?_, ?_⟩
+    · unfold teeNext
+      have hb : (canon cfg n e cu fn).buf[(canon cfg n e cu fn).cur side]? = some (pairs cfg)[cu side] := by
+        show ((pairs cfg).take n)[cu side]? = _
+        rw [List.getElem?_take]
+        simp [hlt, hp]
+      rw [hb]
+      rfl
+    · refine ⟨wf.nLe, wf.neLe, ?_, wf.lost, ?_⟩
+      · rw [max_bump_hit cu side (by rw [← wf.nMax]; exact hlt)]
+        exact wf.nMax
+      · intro b hb
+        by_cases hbs : b = side
+        · subst hbs; rw [hf] at hb; cases hb
+        · rw [bump_other _ _ _ hbs]; exact wf.finEnd b hb
+  · have hcn : cu side = n := by omega
+    have hb : (canon cfg n e cu fn).buf[(canon cfg n e cu fn).cur side]? = none := by
+      show ((pairs cfg).take n)[cu side]? = none
+      rw [List.getElem?_take]
+      simp [hlt]
+    obtain ⟨h1, h2, h3⟩ := pullPair_canon cfg n e cu fn wf
+    cases hp : (pairs cfg)[n]? with
+    | some p =>
+      obtain ⟨hpp, he⟩ := h1 p hp
+      subst he
+      left
+      refine ⟨p, n + 1, by rw [hcn]; exact hp, ?_, ?_⟩
+      · unfold teeNext
+        rw [hb, hpp]
+        simp only []
+        show (some p, ({ canon cfg (n + 1) 0 cu fn with buf := (pairs cfg).take n ++ [p], cur := bump cu side } : St α σ)) = _
+        rw [take_succ_of_getElem? _ _ _ hp]
+        rfl
+      · have hn1 : n < (pairs cfg).length := by
+          rcases Nat.lt_or_ge n (pairs cfg).length with h' | h'
+          · exact h'
+          · rw [List.getElem?_eq_none_iff.mpr h'] at hp; cases hp
+        have hm := max_bump_miss cu side (by rw [← wf.nMax]; omega)
+        refine ⟨hn1, ?_, ?_, ?_, ?_⟩
+        · have := pairs_length_le_src cfg; omega
+        · rw [hm.1, ← wf.nMax]
+        · intro h0; cases h0
+        · intro b hb
+          have := wf.finEnd b hb
+          have hbn : cu b ≤ n := by
+            have := wf.nMax
+            cases b <;> omega
+          omega
+    | none =>
+      have hnl : (pairs cfg).length ≤ n := List.getElem?_eq_none_iff.mp hp
+      have hneq : n = (pairs cfg).length := Nat.le_antisymm wf.nLe hnl
+      right
+      by_cases hmore : n + e < cfg.src.length
+      · obtain ⟨hpp, hnc⟩ := h2 hp hmore
+        refine ⟨e + 1, by rw [hcn]; exact hp, by rw [hcn]; exact hneq, ?_, ?_, Nat.le_succ _, Nat.le_refl _⟩
+        · unfold teeNext
+          rw [hb, hpp]
+        · exact ⟨wf.nLe, by omega, wf.nMax, fun _ => ⟨hneq, hnc⟩, wf.finEnd⟩
+      · have hpp := h3 hp hmore
+        refine ⟨e, by rw [hcn]; exact hp, by rw [hcn]; exact hneq, ?_, wf, Nat.le_refl _, Nat.le_succ _⟩
+        unfold teeNext
+        rw [hb, hpp]
+
+/-- Everything the property needs from one `next()` call. -/
+theorem next_spec (cfg : Cfg α σ) (side : Bool) :
+    ∀ (fuel n e : Nat) (cu : Bool → Nat) (fn : Bool → Bool), WF cfg n e cu fn →
+      (pairs cfg).length - cu side < fuel →
+      ∃ o n' e' cu' fn', next cfg side fuel (canon cfg n e cu fn) = (o, canon cfg n' e' cu' fn') ∧
+        WF cfg n' e' cu' fn' ∧ (∀ b, b ≠ side → cu' b = cu b ∧ fn' b = fn b) ∧ e ≤ e' ∧
+        (fn side = true → fn' side = true) ∧
+        (match o with
+         | .val x => filt cfg side (cu' side) = filt cfg side (cu side) ++ [x] ∧ e' = e
+         | .stop => filt cfg side (cu' side) = filt cfg side (cu side) ∧ fn' side = true ∧ e' ≤ e + 1
+         | .outOfFuel => False) := by
+  intro fuel
+  induction fuel with
+  | zero => intro n e cu fn _ h; omega
+  | succ k ih =>
+    intro n e cu fn wf hfuel
+    unfold next
+    by_cases hfin : fn side = true
+    · have : (canon cfg n e cu fn).fin side = true := hfin
+      rw [if_pos this]
+      exact ⟨.stop, n, e, cu, fn, rfl, wf, fun b _ => ⟨rfl, rfl⟩, Nat.le_refl _, fun h => h, rfl, hfin, Nat.le_succ _⟩
+    · have hff : fn side = false := by cases h : fn side <;> simp_all
+      have : ¬ (canon cfg n e cu fn).fin side = true := by show ¬ fn side = true; rw [hff]; simp
+      rw [if_neg this]
+      rcases teeNext_canon cfg side n e cu fn wf hff with ⟨p, n', hp, ht, wf'⟩ | ⟨e', hp, hend, ht, wf', he1, he2⟩
+      · rw [ht]
+        simp only []
+        have hlt : cu side < (pairs cfg).length := by
+          rcases Nat.lt_or_ge (cu side) (pairs cfg).length with h' | h'
+          · exact h'
+          · rw [List.getElem?_eq_none_iff.mpr h'] at hp; cases hp
+        have hfs := filt_succ cfg side (cu side) p hp
+        by_cases hm : p.2 = side
+        · rw [if_pos hm]
+          refine ⟨.val p.1, n', e, bump cu side, fn, rfl, wf', ?_, Nat.le_refl _, fun h => h, ?_, rfl⟩
+          · intro b hb; exact ⟨bump_other _ _ _ hb, rfl⟩
+          · rw [bump_same, hfs, if_pos hm]
+        · rw [if_neg hm]
+          obtain ⟨o, n2, e2, cu2, fn2, hn, wf2, hoth, hee, hfk, hres⟩ :=
+            ih n' e (bump cu side) fn wf' (by rw [bump_same]; omega)
+          refine ⟨o, n2, e2, cu2, fn2, hn, wf2, ?_, hee, hfk, ?_⟩
+          · intro b hb
+            obtain ⟨a1, a2⟩ := hoth b hb
+            exact ⟨by rw [a1, bump_other _ _ _ hb], a2⟩
+          · rw [bump_same, hfs, if_neg hm, List.append_nil] at hres
+            exact hres
+      · rw [ht]
+        simp only []
+        refine ⟨.stop, n, e', cu, setFin fn side, rfl, ?_, ?_, he1, fun _ => setFin_same _ _, rfl, setFin_same _ _, he2⟩
+        · refine ⟨wf'.nLe, wf'.neLe, wf'.nMax, wf'.lost, ?_⟩
+          intro b hb
+          by_cases hbs : b = side
+          · subst hbs; exact hend
+          · rw [setFin_other _ _ _ hbs] at hb; exact wf'.finEnd b hb
+        · intro b hb; exact ⟨rfl, setFin_other _ _ _ hb⟩
+
 theorem outs_cons (side b : Bool) (o : Out α) (os : List (Bool × Out α)) :
     outs side ((b, o) :: os) =
-      (match o with | .val x => if b = side then [x] else [] | _ => []) ++ outs side os := by
-  cases o <;> simp [outs, List.filterMap_cons]
-  split <;> simp_all
+      (match o with
+        | .val x => if b = side then [x] else []
+        | _ => []) ++ outs side os := by
+  unfold outs
+  cases o <;> simp [List.filterMap_cons] <;> split <;> simp_all
 
-/-- Run-level invariant: the state stays canonical, and what each side has produced is the
-filter of the specification's pairs up to that side's cursor. -/
+def isStop : Out α → Bool
+  | .stop => true
+  | _ => false
+
+def stops (l : List (Bool × Out α)) : Nat := (l.filter (fun p => isStop p.2)).length
+
+/-- A whole run, in canonical form. -/
 theorem run_spec (cfg : Cfg α σ) :
-    ∀ (ops : List Bool) (i c : Bool → Nat), WF cfg i c → (∀ b, Sync cfg i c b) →
-      ∃ i' c', (run cfg ops (canon cfg i c)).2 = canon cfg i' c' ∧ WF cfg i' c' ∧
-        (∀ b, Sync cfg i' c' b) ∧
-        (∀ side, filt cfg side (i' side) = filt cfg side (i side)
-                  ++ outs side (run cfg ops (canon cfg i c)).1) ∧
-        (∀ p ∈ (run cfg ops (canon cfg i c)).1, p.2 ≠ .outOfFuel) ∧
-        (∀ side, (side, Out.stop) ∈ (run cfg ops (canon cfg i c)).1 →
-            (pairs cfg).length ≤ i' side) ∧
-        (∀ b, i b ≤ i' b) := by
+    ∀ (ops : List Bool) (n e : Nat) (cu : Bool → Nat) (fn : Bool → Bool), WF cfg n e cu fn →
+      ∃ n' e' cu' fn', (run cfg ops (canon cfg n e cu fn)).2 = canon cfg n' e' cu' fn' ∧ WF cfg n' e' cu' fn' ∧
+        (∀ side, filt cfg side (cu' side) = filt cfg side (cu side) ++ outs side (run cfg ops (canon cfg n e cu fn)).1) ∧
+        (∀ p ∈ (run cfg ops (canon cfg n e cu fn)).1, p.2 ≠ .outOfFuel) ∧
+        (∀ side, ((side, Out.stop) ∈ (run cfg ops (canon cfg n e cu fn)).1 ∨ fn side = true) → fn' side = true) ∧
+        e' ≤ e + stops (run cfg ops (canon cfg n e cu fn)).1 := by
   intro ops
   induction ops with
   | nil =>
-    intro i c wf hs
-    exact ⟨i, c, rfl, wf, hs, fun side => by simp [run, outs], by simp [run], by simp [run],
-      fun _ => Nat.le_refl _⟩
+    intro n e cu fn wf
+    refine ⟨n, e, cu, fn, rfl, wf, fun side => by simp [run, outs], fun p hp => by simp [run] at hp, ?_,
+      by simp [run, stops]⟩
+    intro side h
+    rcases h with h | h
+    · simp [run] at h
+    · exact h
   | cons side ops ih =>
-    intro i c wf hs
-    obtain ⟨hn, wf1⟩ := next_eq_abs cfg side (fuelOf cfg) i c wf
-    have hspec := absNext_spec cfg side (fuelOf cfg) i c (hs side) (wf.iLe side)
-      (by unfold fuelOf; omega)
-    generalize absNext cfg side (fuelOf cfg) i c = r at hn wf1 hspec
-    obtain ⟨o, i1, c1⟩ := r
-    simp only [] at hn wf1 hspec
-    obtain ⟨hs1, hoth, hmono1, hout⟩ := hspec
-    have hs1' : ∀ b, Sync cfg i1 c1 b := by
-      intro b
-      by_cases hb : b = side
-      · subst hb; exact hs1
-      · obtain ⟨ha, hc⟩ := hoth b hb
-        unfold Sync; rw [ha, hc]; exact hs b
-    obtain ⟨i', c', hst, wf', hs', hf, hno, hstop, hmono⟩ := ih i1 c1 wf1 hs1'
-    have hrun : run cfg (side :: ops) (canon cfg i c) =
-        ((side, o) :: (run cfg ops (canon cfg i1 c1)).1, (run cfg ops (canon cfg i1 c1)).2) := by
+    intro n e cu fn wf
+    have hfuel : (pairs cfg).length - cu side < fuelOf cfg := by
+      have := pairs_length_le_src cfg
+      unfold fuelOf; omega
+    obtain ⟨o, n1, e1, cu1, fn1, hn, wf1, hoth, hee, hfk, hres⟩ := next_spec cfg side (fuelOf cfg) n e cu fn wf hfuel
+    obtain ⟨n2, e2, cu2, fn2, hr, wf2, hf2, ho2, hs2, he2⟩ := ih n1 e1 cu1 fn1 wf1
+    have hrun : run cfg (side :: ops) (canon cfg n e cu fn) =
+        ((side, o) :: (run cfg ops (canon cfg n1 e1 cu1 fn1)).1, (run cfg ops (canon cfg n1 e1 cu1 fn1)).2) := by
       simp only [run, hn]
-    have hi1 : ∀ b, i b ≤ i1 b := by
-      intro b
+    rw [hrun]
+    refine ⟨n2, e2, cu2, fn2, hr, wf2, ?_, ?_, ?_, ?_⟩
+    · intro b
+      rw [hf2 b, outs_cons]
       by_cases hb : b = side
-      · subst hb; exact hmono1
-      · rw [(hoth b hb).1]; exact Nat.le_refl _
-    refine ⟨i', c', by rw [hrun, hst], wf', hs', fun sd => ?_, ?_, ?_, fun b => Nat.le_trans (hi1 b) (hmono b)⟩
-    · rw [hrun, outs_cons, hf sd]
-      by_cases hsd : sd = side
-      · subst hsd
+      · subst hb
         cases o with
-        | val x => simp only [] at hout; simp [hout]
-        | stop => simp only [] at hout; simp [hout.1]
-        | outOfFuel => exact hout.elim
-      · have : i1 sd = i sd := (hoth sd hsd).1
+        | val x => simp only [] at hres; rw [hres.1]; simp
+        | stop => simp only [] at hres; rw [hres.1]; simp
+        | outOfFuel => exact absurd hres (by simp)
+      · have := (hoth b hb).1
         rw [this]
-        cases o <;> simp [Ne.symm hsd]
+        cases o with
+        | val x =>
+          have : ¬ side = b := fun h => hb h.symm
+          simp [this]
+        | stop => simp
+        | outOfFuel => simp
     · intro p hp
-      rw [hrun] at hp
-      rcases List.mem_cons.mp hp with h | h
-      · subst h; cases o with
-        | outOfFuel => exact hout.elim
+      rcases List.mem_cons.mp hp with hp | hp
+      · subst hp
+        cases o with
         | val x => simp
         | stop => simp
-      · exact hno p h
-    · intro sd hmem
-      rw [hrun] at hmem
-      rcases List.mem_cons.mp hmem with h | h
-      · cases h
-        simp only [] at hout
-        exact Nat.le_trans hout.2 (hmono side)
-      · exact hstop sd h
+        | outOfFuel => exact absurd hres (by simp)
+      · exact ho2 p hp
+    · intro b hb
+      apply hs2 b
+      rcases hb with hb | hb
+      · rcases List.mem_cons.mp hb with hb | hb
+        · simp only [Prod.mk.injEq] at hb
+          obtain ⟨hb1, hb2⟩ := hb
+          subst hb1
+          right
+          rw [← hb2] at hres
+          exact hres.2.1
+        · left; exact hb
+      · right
+        by_cases hbs : b = side
+        · subst hbs; exact hfk hb
+        · rw [(hoth b hbs).2]; exact hb
+    · cases o with
+      | val x =>
+        simp only [] at hres
+        have : stops ((side, Out.val x) :: (run cfg ops (canon cfg n1 e1 cu1 fn1)).1) =
+            stops (run cfg ops (canon cfg n1 e1 cu1 fn1)).1 := by simp [stops, isStop]
+        rw [this]; omega
+      | stop =>
+        simp only [] at hres
+        have : stops ((side, Out.stop) :: (run cfg ops (canon cfg n1 e1 cu1 fn1)).1) =
+            stops (run cfg ops (canon cfg n1 e1 cu1 fn1)).1 + 1 := by simp [stops, isStop]
+        rw [this]; omega
+      | outOfFuel => exact absurd hres (by simp)
 
+theorem wf_init (cfg : Cfg α σ) : WF cfg 0 0 (fun _ => 0) (fun _ => false) :=
+  ⟨Nat.zero_le _, Nat.zero_le _, rfl, fun h => absurd h (Nat.lt_irrefl 0), fun b h => by simp at h⟩
 
-/-- `run_spec` from the initial state. -/
 theorem run_init (cfg : Cfg α σ) (ops : List Bool) :
-    ∃ i' c', (run cfg ops (init cfg)).2 = canon cfg i' c' ∧ WF cfg i' c' ∧
-      (∀ b, Sync cfg i' c' b) ∧
-      (∀ side, filt cfg side (i' side) = outs side (run cfg ops (init cfg)).1) ∧
+    ∃ n e cu fn, (run cfg ops (init cfg)).2 = canon cfg n e cu fn ∧ WF cfg n e cu fn ∧
+      (∀ side, filt cfg side (cu side) = outs side (run cfg ops (init cfg)).1) ∧
       (∀ p ∈ (run cfg ops (init cfg)).1, p.2 ≠ .outOfFuel) ∧
-      (∀ side, (side, Out.stop) ∈ (run cfg ops (init cfg)).1 → (pairs cfg).length ≤ i' side) := by
+      (∀ side, (side, Out.stop) ∈ (run cfg ops (init cfg)).1 → fn side = true) ∧
+      e ≤ stops (run cfg ops (init cfg)).1 := by
   rw [init_eq_canon]
-  obtain ⟨i', c', h1, h2, h3, h4, h5, h6, _⟩ :=
-    run_spec cfg ops (fun _ => 0) (fun _ => 0) ⟨fun _ => Nat.zero_le _, fun _ => Nat.zero_le _⟩
-      (fun _ => ⟨Nat.le_refl _, fun h => absurd h (Nat.lt_irrefl _)⟩)
-  refine ⟨i', c', h1, h2, h3, fun side => ?_, h5, h6⟩
-  have := h4 side
-  rw [filt_zero, List.nil_append] at this
-  exact this
+  obtain ⟨n, e, cu, fn, h1, h2, h3, h4, h5, h6⟩ := run_spec cfg ops 0 0 (fun _ => 0) (fun _ => false) (wf_init cfg)
+  refine ⟨n, e, cu, fn, h1, h2, ?_, h4, fun side h => h5 side (Or.inl h), by omega⟩
+  intro side
+  rw [h3 side, filt_zero, List.nil_append]
 
 end AiutiVerif.Split
